@@ -31,6 +31,11 @@ def basisTable (x : Inp) (modes : Array Nat) (nrm : Bool) : Array Float :=
   let fs := modes.map fun jj => zernFast sqrtN Float.cos Float.sin jj nrm
   table2 x.p modes.size fun s a => fs[a]! (x.rho s) (x.theta s) (x.mask s)
 
+/-- `basisOfArgs sqrtN cos sin b` as a `p × k` table -/
+def basisTableA (p k : Nat) (b : Gen.BasisArgs (Nat → Bool) (Nat → Nat) (Nat → Float)) : Array Float :=
+  let fs := (Array.range k).map fun a => zernFast sqrtN Float.cos Float.sin (b.modes a) b.normalize
+  table2 p k fun s a => fs[a]! (b.rho s) (b.theta s) (b.mask s)
+
 /-- `fitX p k B opd = cramerX k (gramX p B) (rhsX p B opd)` with the Gram matrix and right-hand side tabulated once -/
 def fitTable (p k : Nat) (B : Nat → Nat → Float) (opd : Nat → Float) : Array Float :=
   let G := table2 k k (gramX p B)
@@ -48,18 +53,24 @@ def handle (op : String) (j : Json) : Option (R Json) :=
       -- zernike_fit(opd, mask, modes, normalize, rho, theta)
       let x ← inp j; let modes ← (← getArr j "modes").mapM (·.getNat?); let nrm ← getBool j "normalize"
       let opd ← getFloats j "opd"
-      let Bt := basisTable x modes nrm
-      let f := fitTable x.p modes.size (fun s a => Bt[s * modes.size + a]!) (fun s => opd[s]!)
+      let k := modes.size
+      let a : Gen.FitArgs (Nat → Float) (Nat → Bool) (Nat → Nat) (Nat → Float) :=
+        { opd := fun s => opd[s]!, mask := x.mask, modes := fun i => modes[i]!, normalize := nrm, rho := x.rho, theta := x.theta }
+      let Bt := basisTableA x.p k (Gen.fitBasisArgs a)       -- fitA: basis requested with the regenerated argument projection
+      let f := fitTable x.p k (fun s c => Bt[s * k + c]!) a.opd
       pure (okJ [("fit", floatsJ f.toList)])
   | "zremove" => some do
-      -- zernike_remove(opd, mask, modes, rho, theta): fit and basis share modes/coordinates; normalisation = library default
+      -- zernike_remove(opd, mask, modes, rho, theta) = removeA …: the fit and the basis get the arguments the REGENERATED wiring gives them
       let x ← inp j; let modes ← (← getArr j "modes").mapM (·.getNat?)
       let opd ← getFloats j "opd"
-      let Bt := basisTable x modes Gen.removeNormalize
-      let B := fun (s a : Nat) => Bt[s * modes.size + a]!
-      -- removeX p k B opd s = opd s - composeX k B (fitX p k B opd) s
-      let f := fitTable x.p modes.size B (fun s => opd[s]!)
-      let r := fun s => opd[s]! - composeX modes.size B (fun a => f[a]!) s
+      let k := modes.size
+      let a : Gen.RemoveArgs (Nat → Float) (Nat → Bool) (Nat → Nat) (Nat → Float) :=
+        { opd := fun s => opd[s]!, mask := x.mask, modes := fun i => modes[i]!, rho := x.rho, theta := x.theta }
+      let fa := Gen.removeFitArgs a
+      let Bf := basisTableA x.p k (Gen.fitBasisArgs fa)
+      let f := fitTable x.p k (fun s c => Bf[s * k + c]!) fa.opd
+      let Bb := basisTableA x.p k (Gen.removeBasisArgs a)
+      let r := fun s => a.opd s - composeX k (fun s c => Bb[s * k + c]!) (fun c => f[c]!) s
       pure (okJ [("residual", floatsJ ((List.range x.p).map r))])
   | "zcompose" => some do
       -- zernike_compose(mask, coeffs, normalize, rho, theta): coefficient i <-> Noll Gen.composeNoll i
